@@ -270,6 +270,21 @@ func runEAN13UPCA() {
 			run(l, "ean13", c, -1, false, "own", "multi", "multi+own", "multi+all")
 		}
 	})
+	// POSSIBLE_FORMATS is an ORDERED list: the multi-format reader tries the formats in that order, so a
+	// reader for a shorter symbology sees every EAN-13 row first when it is listed first. Every ordered
+	// list of distinct UPC/EAN formats that contains EAN_13 (49 lists) x numbers whose first digit, two
+	// left-half digits and first right-half digit run over all values
+	orders := formatOrders("EAN_13")
+	sweep(fmt.Sprintf("EAN-13 under every ordered POSSIBLE_FORMATS list containing EAN_13 (%d lists): first digit 1..9 x digits 2,3 of the left half 0..9 x first digit of the right half 0..9 (9000 numbers)", len(orders)), 9000, 20, func(l *mc.Local, i int) {
+		d0, a, b, r := 1+i/1000, i/100%10, i/10%10, i%10
+		p := fmt.Sprintf("%d%d%d1403%d6165", d0, a, b, r)
+		run(l, "ean13", p, -1, false, orders...)
+	})
+	ordersA := formatOrders("UPC_A")
+	sweep(fmt.Sprintf("UPC-A under every ordered POSSIBLE_FORMATS list containing UPC_A (%d lists): 1000 numbers", len(ordersA)), 1000, 20, func(l *mc.Local, i int) {
+		p := fmt.Sprintf("%d%d7103%d9165", i/100, i/10%10, i%10)
+		run(l, "upca", p+"0"[:11-len(p)], -1, false, ordersA...)
+	})
 	f12 := uniq(le2(11), triples(11), quad(11))
 	sweep(fmt.Sprintf("UPC-A: %d payloads (same three families on 11 digits) x 11/12-digit form x UPC-A reader, EAN-13 reader and multi-format reader (no hint, own format, all four formats)", len(f12)), len(f12), 50, func(l *mc.Local, i int) {
 		p := f12[i]
